@@ -86,6 +86,8 @@ def decode_rules(ctx, tab):
         if p.get("k") == "plit":
             bt = fv.term(a["body"])
             arms[p["v"]] = bt[1] if bt[0] == "lit" else None
+            if isinstance(arms[p["v"]], int) and 0 <= arms[p["v"]] < 256 and a["body"].get("ty") == "u8":
+                arms[p["v"]] = chr(arms[p["v"]])       # a byte literal b'A' names the same letter
         elif p.get("k") == "pwild":
             wild_ok = diverges(a["body"])
     for d, letter in DECODE_SPEC.items():
@@ -132,7 +134,7 @@ def loop_rules(ctx, fv, m):
     ctx.check("C02.S2", "numeric_to_kmer:pop", state[wv] == mk_bin(">>", wv, L(2)),
               "code >>= 2 per digit", "per-iteration code update is `%s`, expected `code >> 2`" % show(state[wv]),
               line_of(loop))
-    pushes = [e for e in eff if e[0] == "call" and e[1].endswith("String::push")]
+    pushes = [e for e in eff if e[0] == "call" and (e[1].endswith("String::push") or e[1].endswith("Vec::push"))]
     push_ok = len(pushes) == 1 and pushes[0][3][0] in ("match", "index") and \
         contains(pushes[0][3], lambda s_: s_ == mk_bin("&", wv, L(3)))
     ctx.check("C02.S2", "numeric_to_kmer:push", push_ok, "one letter pushed per digit, from the un-shifted code",
@@ -141,7 +143,21 @@ def loop_rules(ctx, fv, m):
     # result: chars().rev().collect()
     res = fv.term(fv.body.get("expr")) if fv.body.get("expr") else ("none",)
     names = [s[1] for s in subterms(res) if s[0] == "call"]
-    rev_ok = any(n.endswith("Iterator::rev") for n in names) and any(n.endswith("Iterator::collect") for n in names)
+    n_rev = sum(1 for n in names if n.endswith("Iterator::rev"))
+    # in-place reversal of the accumulator after the loop (`bytes.reverse()`), then String::from_utf8(bytes)
+    top = fv.body.get("stmts", [])
+    li = next((i for i, s in enumerate(top) if s is loop or (s.get("k") == "semi" and s["e"] is loop)), None)
+    acc_t = pushes[0][2] if len(pushes) == 1 else None
+    n_inplace = 0
+    for s in (top[li + 1:] if li is not None else []):
+        x = s["e"] if s.get("k") == "semi" else s
+        if x.get("k") == "mcall" and cname(x).endswith("::reverse") and acc_t is not None and fv.term(x["recv"]) == acc_t:
+            n_inplace += 1
+    if n_inplace:
+        rev_ok = n_inplace + n_rev == 1 and any(n.endswith("String::from_utf8") or n.endswith("String::from_utf8_unchecked")
+                                                  for n in names) and contains(res, lambda s_: s_ == acc_t)
+    else:
+        rev_ok = n_rev == 1 and any(n.endswith("Iterator::collect") for n in names)
     ctx.check("C02.S2", "numeric_to_kmer:reversed", rev_ok, "LSB-first digits are reversed into reading order",
               "result `%s` is not the reversed digit string" % show(res), line_of(fv.body))
 
